@@ -208,6 +208,10 @@ func hashConc(r *rand.Rand, scale float64) {
 	bals := []bal{
 		{"hash", &kafka.Hash{}, 1200 * time.Millisecond},
 		{"ref", &kafka.ReferenceHash{}, 1200 * time.Millisecond},
+		// a caller-supplied Hasher is shared by design and must be used under the balancer's lock
+		// from Reset to Sum32 (in the race-detector build an early unlock is reported at once)
+		{"hashu", &kafka.Hash{Hasher: fnv.New32a()}, 400 * time.Millisecond},
+		{"refu", &kafka.ReferenceHash{Hasher: fnv.New32a()}, 400 * time.Millisecond},
 		{"crc", kafka.CRC32Balancer{}, 300 * time.Millisecond},
 		{"crcc", kafka.CRC32Balancer{Consistent: true}, 300 * time.Millisecond},
 		{"mur", kafka.Murmur2Balancer{}, 300 * time.Millisecond},
